@@ -13,7 +13,9 @@
     check over the names a class exports, `MetricWrapperBase.labels`, `Counter.inc` / `Gauge.inc/dec/set` /
     `Histogram.observe` / `Summary.observe`).  Modelled, not verified: compared with the real library on every
     generated call sequence (values read back from the real default registry).
-  Values are integers in quarter units (the generators use multiples of 0.25, whose float sums are exact).
+  Values: finite ones are integers in quarter units (the generators use multiples of 0.25, whose float sums are
+  exact), plus nan / +inf / -inf with IEEE addition (`Val`).  The default registry is process-wide: `Plugin.foreign`
+  are the names other collectors hold (the driver passes those of prometheus_client's default collectors, extracted).
   Label dicts have unique keys (they are Python dicts) and text values.
 -/
 import DeepModel.Extracted.C17Prom
@@ -21,9 +23,38 @@ import DeepModel.Extracted.C17Prom
 namespace C17Prom
 open Extracted.C17Prom
 
+/-- a metric value as it reaches the processor: `float(expression)` may be any double — a finite one (here: an
+    integer number of quarter units; the generators stay where float sums are exact), `nan`, `+inf`, `-inf`
+    (`float('nan')`, the text "inf" … all pass `_process_metric`) -/
+inductive Val
+  | fin (q : Int)
+  | nan
+  | inf (neg : Bool)
+deriving DecidableEq, Repr
+
+/-- IEEE addition on that domain -/
+def Val.add : Val → Val → Val
+  | .nan, _ => .nan
+  | _, .nan => .nan
+  | .fin a, .fin b => .fin (a + b)
+  | .fin _, .inf n => .inf n
+  | .inf n, .fin _ => .inf n
+  | .inf a, .inf b => if a = b then .inf a else .nan
+
+def Val.negate : Val → Val
+  | .fin a => .fin (-a)
+  | .nan => .nan
+  | .inf n => .inf (!n)
+
+/-- `v < 0` (false for nan) -/
+def Val.isNeg : Val → Bool
+  | .fin a => decide (a < 0)
+  | .nan => false
+  | .inf n => n
+
 structure Acc where
-  count : Nat        -- successful operations on this time series
-  sum : Int          -- quarter units: counter total / gauge value / sum of observations
+  count : Nat        -- counter / gauge: successful operations; histogram / summary: the exported `_count`
+  sum : Val          -- counter total / gauge value / sum of observations
 deriving DecidableEq, Repr
 
 /-- a registered client metric object (the parent) with its children by label values, in creation order -/
@@ -38,9 +69,15 @@ deriving DecidableEq, Repr
 /-- the plugin's cache, in insertion order; every cached object is registered in the default registry -/
 structure Plugin where
   cache : List (String × Family)
+  foreign : List String      -- time-series names other collectors hold in the (process-wide) default registry
 deriving DecidableEq, Repr
 
-def Plugin.empty : Plugin := ⟨[]⟩
+/-- a fresh plugin in a process whose default registry already holds the names `foreign` -/
+def Plugin.fresh (foreign : List String) : Plugin := ⟨[], foreign⟩
+def Plugin.empty : Plugin := Plugin.fresh []
+def Plugin.withCache (p : Plugin) (c : List (String × Family)) : Plugin := ⟨c, p.foreign⟩
+@[simp] theorem Plugin.withCache_cache (p : Plugin) (c : List (String × Family)) : (p.withCache c).cache = c := rfl
+@[simp] theorem Plugin.withCache_foreign (p : Plugin) (c : List (String × Family)) : (p.withCache c).foreign = p.foreign := rfl
 
 /-- arguments of one processor operation -/
 structure Args where
@@ -49,7 +86,7 @@ structure Args where
   ns : Option String
   help : Option String
   unit : Option String
-  value : Int
+  value : Val
 deriving DecidableEq, Repr
 
 /-- Python truthiness of an optional text -/
@@ -70,7 +107,7 @@ def keysArg (a : Args) : Src → Option (List String)
   | .labels => some (a.labels.map (·.1))       -- iterating a dict gives its keys
   | _ => none
 
-def numArg (a : Args) : Src → Option Int
+def numArg (a : Args) : Src → Option Val
   | .value => some a.value
   | _ => none
 
@@ -78,7 +115,7 @@ def numArg (a : Args) : Src → Option Int
 
 def endsWith (s suf : List Char) : Bool := suf.isSuffixOf s
 
-/-- `_build_full_name(type, name, namespace, '', unit)`; none = ValueError (empty / missing name) -/
+/-- `_build_full_name(type, name, namespace, '', unit)` + `_validate_metric_name`; none = ValueError -/
 def buildFullName (cls : Cls) (name ns unit : Option String) : Option String :=
   match truthy name with
   | none => none
@@ -88,7 +125,8 @@ def buildFullName (cls : Cls) (name ns unit : Option String) : Option String :=
     let full := match truthy unit with
       | some u => if endsWith full ('_' :: u.toList) then full else full ++ '_' :: u.toList
       | none => full
-    some (String.ofList full)
+    -- `_validate_metric_name`: the FINAL name must not be empty (a counter called `_total` without namespace / unit)
+    if full.isEmpty then none else some (String.ofList full)
 
 /-- the label names a class keeps for itself -/
 def reservedLabel : Cls → String → Bool
@@ -106,9 +144,10 @@ def tsNames (cls : Cls) (full : String) : List String :=
   | .summary => [full, full ++ "_sum", full ++ "_count", full ++ "_created"]
   | .histogram => [full, full ++ "_bucket", full ++ "_sum", full ++ "_count", full ++ "_created"]
 
-def registryNames (p : Plugin) : List String := p.cache.flatMap (fun kf => tsNames kf.2.cls kf.2.fullName)
+def registryNames (p : Plugin) : List String :=
+  p.foreign ++ p.cache.flatMap (fun kf => tsNames kf.2.cls kf.2.fullName)
 
-def Acc.zero : Acc := ⟨0, 0⟩
+def Acc.zero : Acc := ⟨0, .fin 0⟩
 
 /-- `Cls(name=…, documentation=…, labelnames=…, namespace=…, unit=…)` against the registry holding the plugin's
     objects; none = the constructor raises (nothing is registered) -/
@@ -131,16 +170,27 @@ def childFor (f : Family) (labels : List (String × String)) : Option (List Stri
     some (f.labelNames.map (fun n => (labels.lookup n).getD ""))
   else none
 
-/-- the operation on one observable object; none = it raises (no such method on the class, negative counter step) -/
-def applyOp (cls : Cls) (op : ClientOp) (v : Int) (acc : Acc) : Option Acc :=
+/-- the operation on one observable object; none = it raises (no such method on the class, negative counter step).
+    `Counter.inc` refuses `amount < 0` (nan is not `< 0`); `Histogram.observe` puts the value into the first bucket
+    with `amount <= bound` — none for nan, so the exported `_count` (the +Inf bucket) does not move; `Summary.observe`
+    counts every observation. -/
+def applyOp (cls : Cls) (op : ClientOp) (v : Val) (acc : Acc) : Option Acc :=
   match cls, op with
-  | .counter, .inc => if v < 0 then none else some ⟨acc.count + 1, acc.sum + v⟩
-  | .gauge, .inc => some ⟨acc.count + 1, acc.sum + v⟩
-  | .gauge, .dec => some ⟨acc.count + 1, acc.sum - v⟩
+  | .counter, .inc => if v.isNeg then none else some ⟨acc.count + 1, acc.sum.add v⟩
+  | .gauge, .inc => some ⟨acc.count + 1, acc.sum.add v⟩
+  | .gauge, .dec => some ⟨acc.count + 1, acc.sum.add v.negate⟩
   | .gauge, .set => some ⟨acc.count + 1, v⟩
-  | .histogram, .observe => some ⟨acc.count + 1, acc.sum + v⟩
-  | .summary, .observe => some ⟨acc.count + 1, acc.sum + v⟩
+  | .histogram, .observe => some ⟨if v = .nan then acc.count else acc.count + 1, acc.sum.add v⟩
+  | .summary, .observe => some ⟨acc.count + 1, acc.sum.add v⟩
   | _, _ => none
+
+/-- how the exported operation count moves with one accepted operation -/
+def countAfter (cls : Cls) (v : Val) (n : Nat) : Nat := if cls = .histogram ∧ v = .nan then n else n + 1
+
+/-- the time series a report addresses in an object with label names `names`: the report's label values in the
+    order of the object's label names; the one unlabelled series when the report has no labels -/
+def reportSeries (names : List String) (labels : List (String × String)) : List String :=
+  if labels.isEmpty then [] else names.map (fun n => (labels.lookup n).getD "")
 
 /-! ### the plugin -/
 
@@ -155,6 +205,21 @@ deriving DecidableEq, Repr
 def Outcome.isOk : Outcome → Bool
   | .ok => true
   | _ => false
+
+/-- the class of what the client library raises for an outcome: ValueError (constructor, `.labels`, not observable,
+    negative step), AttributeError (no such operation), TypeError (no value) — all of them `Exception`s -/
+def Outcome.raises : Outcome → Option Py.Exn
+  | .ok => none
+  | _ => some .exc
+
+/-- does an `except <guard>` clause catch an exception of class `cls` (`except Exception` does not catch a bare
+    BaseException) -/
+def catches (guard : Option Py.Exn) (cls : Py.Exn) : Bool :=
+  match guard, cls with
+  | none, _ => false
+  | some .base, _ => true
+  | some .exc, .exc => true
+  | some .exc, .base => false
 
 /-- `d[k] = v` on an insertion-ordered dict -/
 def assocSet {α β : Type} [DecidableEq α] (c : List (α × β)) (k : α) (v : β) : List (α × β) :=
@@ -184,8 +249,8 @@ def useFamily (p : Plugin) (m : Method) (key : String) (f : Family) (a : Args) :
     -- `.labels()` creates the child (value 0) before the operation is tried
     let acc := accOf f lv
     match (numArg a m.opArg).bind (fun v => applyOp f.cls m.op v acc) with
-    | none => (⟨setFamily p.cache key { f with children := setChild f.children lv acc }⟩, .opRaised)
-    | some acc' => (⟨setFamily p.cache key { f with children := setChild f.children lv acc' }⟩, .ok)
+    | none => (p.withCache (setFamily p.cache key { f with children := setChild f.children lv acc }), .opRaised)
+    | some acc' => (p.withCache (setFamily p.cache key { f with children := setChild f.children lv acc' }), .ok)
 
 /-- one operation of the plugin (`counter` / `gauge` / `histogram` / `summary`, given by its `Method` record) -/
 def call (p : Plugin) (m : Method) (a : Args) : Plugin × Outcome :=
@@ -195,10 +260,13 @@ def call (p : Plugin) (m : Method) (a : Args) : Plugin × Outcome :=
   | none =>
     match construct p m a with
     | none => (p, .ctorRaised)
-    | some f => useFamily ⟨p.cache ++ [(key, f)]⟩ m key f a
+    | some f => useFamily (p.withCache (p.cache ++ [(key, f)])) m key f a
 
 /-- does the failure leave the plugin operation as an exception (no except clause) -/
-def propagates (m : Method) (o : Outcome) : Bool := !o.isOk && m.guard.isNone
+def propagates (m : Method) (o : Outcome) : Bool :=
+  match o.raises with
+  | none => false
+  | some cls => !catches m.guard cls
 
 /-- a request: operation name + arguments.  An unknown operation name is not a call of the plugin. -/
 def callNamed (p : Plugin) (op : String) (a : Args) : Plugin × Option Outcome :=
@@ -214,7 +282,7 @@ def run (p : Plugin) : List (String × Args) → Plugin × List (Option Outcome)
     (rr.1, r.2 :: rr.2)
 
 /-- `clear()` -/
-def clear (_p : Plugin) : Plugin := if clearEmptiesCache then Plugin.empty else _p
+def clear (p : Plugin) : Plugin := if clearEmptiesCache then p.withCache [] else p
 
 /-- what a scrape of the registry shows for the plugin's objects -/
 def sampleOf (p : Plugin) (key : String) (lv : List String) : Option Acc :=
